@@ -425,9 +425,10 @@ func ExecReader(data any, selector string) (any, error) {
 		}
 		cache[selector] = allSelectors
 	}
+	parsed := cache[selector]
 	mut.Unlock()
 	result := data
-	for _, item := range cache[selector] {
+	for _, item := range parsed {
 		rs, err := ReaderExecutor(result, item)
 		if err != nil {
 			return nil, err
